@@ -51,6 +51,24 @@ def _long_groups(draw):
                                    "stable": draw(st.sampled_from([True, True, False]))}}
 
 
+WIDE_DTYPES = ("int8", "int16", "int32", "int64", "uint8", "uint16", "uint32", "uint64", "float32", "float64")
+
+
+@st.composite
+def _all_dtypes(draw):
+    """every numeric leaf dtype with values at and next to the ends of its range (added after the seeded change C06-d - uint32 leaves
+    sorted through the int32 instantiation - was missed: values >= 2^31 in a uint32 leaf were never generated)"""
+    dt = draw(st.sampled_from(WIDE_DTYPES))
+    cfg = gen.Cfg(max_depth=2, leaf_dtypes=(dt,), nan=True, extremes=True, records=False, unions=False, strings=False, unknown=False, tuples=False,
+                  max_len=6, max_list=5)
+    T = draw(st.sampled_from([M.prim(dt), ["list", M.prim(dt)], ["list", M.prim(dt)], ["list", ["option", M.prim(dt)]], ["list", ["list", M.prim(dt)]]]))
+    vals = draw(gen.values(T, cfg))
+    depth = 1 + repr(T).count("'list'")
+    desc = draw(gen.encode(T, vals, cfg)) if draw(st.booleans()) else gen.canonical(T, vals)
+    return {"desc": desc, "spec": {"op": draw(st.sampled_from(["argsort", "sort", "sort"])), "axis": draw(st.sampled_from([-1, depth - 1])),
+                                   "ascending": draw(st.booleans()), "stable": draw(st.sampled_from([True, True, False]))}}
+
+
 def strategy(tier):  # noqa: F811
     return st.one_of(_short_strategy(tier), _short_strategy(tier), _short_strategy(tier), _short_strategy(tier), _short_strategy(tier),
-                     _short_strategy(tier), _short_strategy(tier), _long_groups())
+                     _short_strategy(tier), _all_dtypes(), _long_groups())
